@@ -1,6 +1,7 @@
 CONSTANTS
   Source = "built"
   Scale = "small"
+  Reader = "asis"
 INIT Init
 NEXT Next
 INVARIANT G2IsG1
